@@ -25,6 +25,12 @@ def run(rep, tier):
     c07_3(rep, E, ix)
     c07_4(rep, ix)
     c07_5(rep, ix)
+    # a template include is instantiated for the call (`bb(**kwargs)`): the instantiation rules are part of "equals inlining it"
+    from . import c04
+    sites = common.guarded(rep, "C04.3", c04.c04_3, rep, ix)
+    if sites:
+        common.guarded(rep, "C04.4", c04.c04_4, rep, ix, sites)
+    common.guarded(rep, "C04.7", c04.c04_7, rep, ix)
 
 
 # ---------------------------------------------------------------------------------------- helpers
